@@ -325,6 +325,10 @@ def w4(model: Model, rep: Report):
             ok_rows = ok_o and ok_sp
         rep.check(ok_rows, "C18.W4", "construct_visual_description[rows]", f.loc, found=show(rows) if rows else None, required="reorder_indices(unique occupied channel ids, requested order)", what="rows are not the occupied channels in the requested order", detail="rows")
         lm = d.get("channel_label_map")
+        from ..listflow import as_single_comp, dict_as_comp
+        if lm is not None and lm[0] == "var":
+            filled = dict_as_comp(p, lm)
+            lm = filled if filled is not lm else lm
         src = lm[3] if lm is not None and lm[0] == "var" else lm
         if src is not None and src[0] == "dictcomp":
             from ..extreme import fuse_comprehensions
@@ -340,6 +344,8 @@ def w4(model: Model, rep: Report):
         rep.check(ok_lm, "C18.W4", "construct_visual_description[label map keyed by row]", f.loc, found=show(lm) if lm else None, required="{row: custom_map.get(channel, channel) for row, channel in enumerate(rows)}",
                   what="labels are keyed by something else than the row they are read with", detail="label-writer")
         stt = d.get("channel_states")
+        if stt is not None and stt[0] == "var":
+            stt = as_single_comp(p, stt)
         src = stt[3] if stt is not None and stt[0] == "var" else stt
         ok_st = src is not None and src[0] == "comp" and src[3][0][0] == rows and not src[3][0][1] and is_call_of(src[2], "get_qubit_initial_state") and src[2][1][1] == circuit
         rep.check(ok_st, "C18.W4", "construct_visual_description[states follow rows]", f.loc, found=show(stt) if stt else None, required="[circuit.get_qubit_initial_state(c) for c in rows]", what="initial-state labels do not follow the row order", detail="states")
